@@ -357,6 +357,42 @@ def _int4_chunk(params, lo, hi):
     return r
 
 
+def _lbrow_chunk(params, lo, hi):
+    """two integer variables, each with one single-variable row that is either x_j <= 1 or -x_j <= -1 (x_j >= 1), both with
+    x_j <= 3, and one general row +-(a.x) <= +-b0: rows that only look like binary bounds when their sign is dropped.
+    index = ((((kinds*9 + a_code)*7 + b0)*2 + sense)*16 + c_code)*2 + minimize"""
+    r = new_result()
+    geo = None
+    gkey = None
+    for idx in range(lo, hi):
+        minimize = idx % 2 == 0
+        k = idx // 2
+        c = [(1, 2, 3, 4)[d] for d in digits(k % 16, 4, 2)]
+        k //= 16
+        sense = k % 2
+        k //= 2
+        b0 = k % 7
+        k //= 7
+        a = [(1, 2, 3)[d] for d in digits(k % 9, 3, 2)]
+        kinds = digits(k // 9, 2, 2)
+        A = [([1, 0] if j == 0 else [0, 1]) if kinds[j] == 0 else ([-1, 0] if j == 0 else [0, -1]) for j in range(2)]
+        b = [1 if kinds[j] == 0 else -1 for j in range(2)]
+        A += [[1, 0], [0, 1], [x if sense == 0 else -x for x in a]]
+        b += [3, 3, b0 if sense == 0 else -b0]
+        if (tuple(map(tuple, A)), tuple(b)) != gkey:
+            geo = Geometry(A, b, 2)
+            gkey = (tuple(map(tuple, A)), tuple(b))
+        for ints in ((0, 1), (0,), (1,)):
+            for kw in ({}, {"heuristics": False}):
+                errs, label, nt = judge(geo, c, ints, minimize, kw)
+                wit = {"c": c, "A": A, "b": b, "integers": list(ints), "minimize": minimize, "config": kw}
+                _rec(r, errs, label, nt, wit, f"solve_milp(c={c}, A={A}, b={b}, integers={list(ints)}, minimize={minimize}, {kw})")
+        if len(r["violations"]) >= 40 or too_many_hangs():
+            r["capped"] = True
+            break
+    return r
+
+
 def _binary_chunk(params, lo, hi):
     """3 variables, rows x_j<=1 (j=0..2) + one general row a.x<=b0 (+ optionally a second); all integer.
     index = ((a_code*4 + b0)*64 + c_code)*2 + minimize ; second row from params"""
@@ -527,6 +563,7 @@ def jobs(tier, seed):
     else:
         kn = ("knap", (2, 3, 4), (7, 9, 11), (2, 3, 4))
         js.append(Job("int4_knapsack_row_234", 81 * 3 * 81 * 2, _int4_chunk, kn, describe="4 integers in 0..2, one knapsack row with weights over {2,3,4}, K in {7,9,11}, values over {2,3,4}, maximise, heuristics on/off (incumbents found while dominated and non-dominated nodes wait in the queue)"))
+    js.append(Job("int2_lower_bound_rows", 4 * 9 * 7 * 2 * 16 * 2, _lbrow_chunk, None, describe="2 variables, each with a single-variable row x_j <= 1 or -x_j <= -1 plus x_j <= 3, one general row a.x <= b0 or a.x >= b0 with a over {1,2,3}, b0 in 0..6, costs over {1..4}; every integer subset, min/max, heuristics on/off"))
     js.append(Job("binary3_one_row", 64 * 4 * 64 * 2, _binary_chunk, None, describe="3 variables with explicit x_j<=1 rows + one general row; all-integer and mixed; rounding heuristic, LNS seeds, limits, warm starts"))
     js.append(Job("binary3_two_rows", 64 * 4 * 64 * 2, _binary_chunk, ((1, 1, 1), 2), describe="same with an extra cardinality row x0+x1+x2<=2"))
     na = 3 if tier == "thorough" else 1
